@@ -370,3 +370,14 @@ func (n *Net) LastHeard(c2s bool) time.Time {
 	}
 	return t
 }
+
+// DisarmCuts removes every armed CutAfter that has not fired yet.
+func (n *Net) DisarmCuts() {
+	for _, l := range n.Links() {
+		for _, h := range []*half{l.C2S, l.S2C} {
+			h.mu.Lock()
+			h.cutAt = -1
+			h.mu.Unlock()
+		}
+	}
+}
